@@ -22,5 +22,12 @@ namespace Route
 theorem interpH_cnot_ne_one (α : ℕ → ℝ) : interpH 2 α ⟨.CNOT, [0], [1], 0, 0⟩ ≠ 1 := by
   rw [interpH_cnot_two]; exact toMatD_cnot_ne_one
 
+/-- convention: on two qubits RZX on targets (0, 1) is the matrix of the gate class itself -/
+theorem interpH_rzx_two (α : ℕ → ℝ) (a x : ℕ) :
+    interpH 2 α ⟨.RZX, [], [0, 1], a, x⟩ = mat2 (Gen.G.cls_RZX_ (α a)) := by
+  rw [interpH_two α (a := 0) (b := 1) (by simp [nCtl, GName.isCtl]) rfl,
+    place2_ok (by decide) (by decide) (by decide)]
+  exact pair_embed_self _ _
+
 end Route
 end QipVerif
